@@ -135,6 +135,10 @@ def make_agg(spec):
     k = spec.get("k")
 
     def fn(items):
+        if g == "raise":
+            if spec["exc"] == "StopIteration":
+                raise StopIteration("injected")
+            raise SimFault("injected aggregate callback fault")
         if g == "len":
             return len(items)
         if g == "sum":
@@ -271,6 +275,7 @@ class World:
         self.m2r = {}
         self.keep = []
         self.dropped = set()
+        self.gone = set()
         self.next_handle = 0
         self.violations = []
         self.faults = {}
@@ -467,6 +472,8 @@ class World:
     def check_flags(self, op):
         kind = op["op"]
         for h, ml in self.model.items():
+            if h in self.gone:
+                continue
             real = self.lists[h]
             robs = bool(self.flag(real, "_obsolete"))
             if ml.obs is None:
@@ -1457,6 +1464,17 @@ class World:
         res, err = self.call(lambda: real.group_by(*by).aggregate(**fr))
         m.group = tuple(by)
         info = {"involved": [recv], "method_use": True}
+        if any(s.get("g") == "raise" for k, s in aggs) and not undefined and m.items:
+            self.faults["callback_raise"] = self.faults.get("callback_raise", 0) + 1
+            info["raised"] = err is not None
+            if err is None:
+                self.viol("C16", "fault", "C16.fault|aggregate|callback-exception-swallowed",
+                          f"a summary function raised but aggregate returned {plain(res)!r}")
+                if isinstance(res, self.L):
+                    ml = self.adopt(op["out"], res, m.group)
+                    ml.strong, ml.weak, ml.left = set(), {recv}, set()
+            self.check_heap(op)
+            return info
         if err is not None:
             info["raised"] = True
             info["log"] = {"raised": type(err).__name__}
@@ -1661,6 +1679,8 @@ class Gen:
         r = self.rng
         kind = r.choice(["const", "inc", "copykey", "nkeys"])
         if kind == "const":
+            if self.nested and r.random() < 0.3:
+                return {"f": "const", "v": r.choice([{"z": 1}, {"q": {"w": [1]}}, [1, {"z": 2}]])}
             return {"f": "const", "v": self.value(r.choice(KEYS_INT + KEYS_STR))}
         if kind == "nkeys":
             return {"f": "nkeys"}
@@ -1977,6 +1997,9 @@ class Gen:
         for name in r.sample(["n", "t", "p", "f"], r.choice([1, 2])):
             kind = {"n": "len", "t": "sum", "p": "pluck", "f": "first"}[name]
             aggs.append([name, {"g": kind, "k": r.choice(KEYS_INT + KEYS_STR)}])
+        if r.random() < self.fault_rate:
+            aggs.append(["e", {"g": "raise", "exc": r.choice(["StopIteration", "SimFault"])}])
+            op["fault"] = {"kind": "callback_raise", "at": 1}
         op["aggs"] = aggs
         return op
 
@@ -2084,9 +2107,15 @@ def _run(prop, rng=None, trace=None):
             i += 1
             if op["op"] == "drop":
                 if op["t"] in world.lists:
-                    # the simulated caller stops using this list; it stays in the
-                    # derivation graph and its flags stay under observation
+                    # the simulated caller drops its reference: a temporary of a method chain
+                    # dies for real (items stay alive through the heap table); the handle stays
+                    # in the derivation graph of the model
                     world.dropped.add(op["t"])
+                    if config.get("really_drop", True):
+                        world.gone.add(op["t"])
+                        del world.lists[op["t"]]
+                        import gc
+                        gc.collect()
                 ops_done.append(op)
                 continue
             if not _valid(world, op):
